@@ -563,7 +563,7 @@ func (e *Engine) symDecimal(x *Term, signed bool) Str {
 	if nd > 1 {
 		e.assume(e.ts.BNot(e.ts.Cmp(opEq, digits[0], e.ts.Const(8, 0))))
 	}
-	e.modelOK = false
+	e.invalidateModel()
 	out := make([]*Term, 0, nd+1)
 	if neg {
 		out = append(out, e.ts.Const(8, '-'))
